@@ -575,6 +575,13 @@ func (m *machine) userChangesMode(viaCommands bool) {
 		return
 	}
 	want := []string{"on", "local", "off"}[t.Draw(3)]
+	if t.Bool(1, 6) {
+		// something next to the mode file with a name an implementation might use
+		// for itself: an editor's backup, what an interrupted command left behind
+		n := []string{"mode.tmp", "mode~", "mode.bak", ".mode.swp", "mode.lock", "mode.new"}[t.Draw(6)]
+		os.WriteFile(filepath.Join(m.tele, n), []byte("on 2020-01-01"), 0666)
+		m.s.Probe("file-next-to-the-mode-file")
+	}
 	m.s.Advance(time.Duration(t.Draw(3)) * 24 * time.Hour)
 	now := m.s.NowT()
 	if viaCommands {
